@@ -60,6 +60,8 @@ CASES = [
     ('static', ['X static z 3'], ('static', 'z', '3'), 'X'),
     ('limited', ['X limited x a'], ('limited', 'x', 'a'), 'X'),
     ('greedy', ['X remove t', 'X greedy o'], ('greedy-last',), 'X'),
+    ('greedy-sized', ['X remove t', 'X remove o', 'X remove z', 'X remove n', 'X remove y', 'X remove y_len', 'X greedy x'], ('greedy-sized',), 'X'),
+    ('greedy-limited', ['X remove t', 'X remove o', 'X remove z', 'X remove n', 'X greedy y'], ('greedy-limited',), 'X'),
     ('rename-field', ['X rename a b'], ('rename', 'a', 'b'), 'X'),
     ('rename-node', ['X rename Y'], None, 'Y'),
     ('absent-target', ['Nope type a u64', 'Nope remove q'], None, 'X'),
@@ -91,6 +93,10 @@ def reference_members(case):
     elif k[0] == 'greedy-last':
         ms = [m for m in ms if m.name != 't']
         ms[-1] = M('o', 'u16', greedy=True)
+    elif k[0] == 'greedy-sized':
+        ms = [M('a', 'u8'), M('x', 'u16', greedy=True)]        # the trailing 'T x[N]' idiom: greedy drops the size
+    elif k[0] == 'greedy-limited':
+        ms = ms[:3] + [M('y', 'u32', greedy=True)]             # greedy drops bound and size; the former counter stays a plain field
     elif k[0] == 'rename':
         ms[0] = M('b', 'u8')
     return ms
@@ -153,6 +159,11 @@ DIMS = [
     ({'isVariableSize': 'true', 'size': 'N', 'size2': 'M'}, False, (True, True, 'u32')),      # limited, two dimensions: storage N*M
     ({'isVariableSize': 'true', 'size': 'N', 'size2': 'M'}, True, (True, False, 'u32')),       # message tail: dynamic, no storage limit
     ({'size': 'N', 'size2': 'M'}, True, (False, True, None)),
+    # the array is not the last member (a 4th element True appends a member after it): in a message every variable-size
+    # array is dynamic, in a struct it stays limited
+    ({'isVariableSize': 'true', 'size': 'N'}, True, (True, False, 'u32'), True),
+    ({'isVariableSize': 'true', 'size': 'N'}, False, (True, True, 'u32'), True),
+    ({'size': 'N'}, True, (False, True, None), True),
 ]
 
 
@@ -160,11 +171,17 @@ def dimension_forms(idx, n, m):
     """every documented <dimension> form maps to the documented member form, with the numeric size N (N*M for size2)"""
     from prophyc import model
     from prophyc.parsers import isar
-    attrs, as_message, (bound, sized, sizer_t) = DIMS[idx]
-    s = _struct('X', [_member('pre', 'u8'), _member('v', 'u16', attrs)], tag='message' if as_message else 'struct')
+    attrs, as_message, (bound, sized, sizer_t) = DIMS[idx][:3]
+    has_post = len(DIMS[idx]) > 3 and DIMS[idx][3]
+    s = _struct('X', [_member('pre', 'u8'), _member('v', 'u16', attrs)] + ([_member('post', 'u8')] if has_post else []),
+                tag='message' if as_message else 'struct')
     node = isar.make_struct(s, last_member_array_is_dynamic=as_message)
     nodes, _ = model.evaluate_model([model.Constant('N', str(n)), model.Constant('M', str(m)), node])
-    ms = node.members
+    ms = list(node.members)
+    if has_post:
+        if ms[-1].name != 'post':
+            return False
+        ms = ms[:-1]
     v = ms[-1]
     if bool(v.bound) != bound or bool(v.size) != sized:
         return False
